@@ -44,7 +44,10 @@ var (
 
 func (s Scaler) remapMinMax(min, max int64) (float64, float64) {
 	if max <= min {
-		max = min + 1
+		max = min
+		if min < math.MaxInt64 { // min + 1 must not wrap around
+			max = min + 1
+		}
 	}
 	return math.Floor(s.mapVal(float64(min))), math.Ceil(s.mapVal(float64(max)))
 }
